@@ -3,7 +3,7 @@
 From Verif Require Import Base.Tactics Base.ZList Base.Val.
 From Verif Require Import Base.Str.
 From Verif Require Import Model.BufReaderModel Model.RangeModel Model.IsoTimeModel Model.TimingModel Model.SegModel.
-From Verif Require Import Base.Bits Model.CrcModel Model.EventsModel Model.Scte35Model.
+From Verif Require Import Base.Bits Model.CrcModel Model.EventsModel Model.Scte35Model Model.MpsModel.
 
 (* ---- C20 ---- request: (file off bs maxb (size?) mode ops) *)
 Definition c20_op (v : val) : op :=
@@ -204,8 +204,23 @@ Definition c14_run (v : val) : val :=
     of_ints (bits_bytes (enc_signal (event_signal (c14_sched (vnth 1 v)) (vint (vnth 2 v)) (vint (vnth 3 v)) (vint (vnth 4 v)))))
   else verr 997.
 
+(* ---- C12 ---- request: (mode ...) *)
+Definition c12_listed (l : list plisted) : val :=
+  VL (map (fun p => match p with (k, lp, st, d) => VL [VI k; VI lp; VI st; VI d] end) l).
+Definition c12_run (v : val) : val :=
+  let mode := vint (vnth 0 v) in
+  if mode =? 0 then c12_listed (vod_periods (vints (vnth 1 v)) 0 0)
+  else if mode =? 1 then c12_listed (live_periods (vints (vnth 1 v)) (vint (vnth 2 v)) (vint (vnth 3 v)))
+  else if mode =? 2 then
+    match mps_number (seg_rep (vnth 1 v)) (vint (vnth 2 v)) (vint (vnth 3 v)) (vint (vnth 4 v)) with
+    | Some (m, o, t) => VL [VI m; VI o; VI t]
+    | None => VL []
+    end
+  else verr 996.
+
 Definition dispatch (comp : Z) (v : val) : val :=
   if comp =? 20 then c20_run v
+  else if comp =? 12 then c12_run v
   else if comp =? 14 then c14_run v
   else if comp =? 2 then seg_run v
   else if comp =? 8 then c08_run v
